@@ -26,7 +26,11 @@ def observe(spec, inputs):
         if spec.get("layout") == "T":
             base = numpy.ascontiguousarray(base.T).T
         X = n.pnd.integer_ndarray(base)
+        if spec.get("before"):
+            X.ndint_compress(method=spec["before"], axis=spec["axis"])
         res = numpy.asarray(X.ndint_compress(method=spec["method"], axis=spec["axis"]))
+        out["after"] = numpy.asarray(X).astype(object).tolist()
+        out["base_after"] = numpy.asarray(base).astype(object).tolist()
         out["shape"] = list(res.shape)
         fb = fibres(tuple(spec["shape"]), spec["axis"], spec["method"])
         out["res"] = [int(res[o]) for o, _ in fb] if res.ndim == len(fb[0][0]) else None
@@ -40,6 +44,8 @@ def judge(spec, inputs, out, ob):
         return True, "raised: " + out["error"]
     if out["res"] is None:
         return True, "output shape %s" % out["shape"]
+    if out.get("after") is not None and (out["after"] != inputs["arr"] or out["base_after"] != inputs["arr"]):
+        return True, "the call changed the caller's array: %s became %s | spec=%s" % (inputs["arr"], out["after"], {k: spec[k] for k in ("shape", "axis", "method")})
     a = numpy.array(inputs["arr"], dtype=object)
     shape, axis, me = tuple(spec["shape"]), spec["axis"], spec["method"]
     fb = fibres(shape, axis, me)
